@@ -192,6 +192,24 @@ func c02Ops() []c02Op {
 	}
 	for _, s := range []string{"D", "U"} {
 		s := s
+		// a second sample of the identity 300 microseconds after the newest one written so far (two sources
+		// that sample the same signal; either side may hold the older one)
+		ops = append(ops, c02Op{name: "point on A 300 us after the newest one, at " + s, do: func(g *c02Rig, st *c02State) (bool, error) {
+			last, ok := st.newest["A/value/0"]
+			if !ok {
+				return false, nil
+			}
+			t := last.Time.Add(300 * time.Microsecond)
+			if n := t.UnixNano(); n > g.clock {
+				g.clock = n
+			}
+			p := data.Point{Type: "value", Value: float64(g.clock % 99991), Time: t, Origin: "user" + s}
+			st.accept("A/value/0", p)
+			return true, client.SendNodePoints(side(g, s).Nc, "A", data.Points{p}, true)
+		}})
+	}
+	for _, s := range []string{"D", "U"} {
+		s := s
 		// the same identity written as a removed entry (point-level tombstone count 1); a later plain write revives it
 		ops = append(ops, c02Op{name: "point on A marked removed at " + s, do: func(g *c02Rig, st *c02State) (bool, error) {
 			p := data.Point{Type: "value", Tombstone: 1, Time: g.tick(), Origin: "user" + s}
@@ -652,7 +670,7 @@ func TestC02(t *testing.T) {
 				c02Body(t, 3, 1))
 		}
 		r.Explore(mc.Config{Name: fmt.Sprintf("histories-d%d-dev%d", depth, dev), Serial: true, SplitDepth: 2, DevBound: dev, StopAfterViolations: 40,
-			Rule: fmt.Sprintf("two real stores linked by the real SyncClient (period 1 s) after an initial catch-up; all histories of %d operations over 31 (point with an existing identity, plain or marked removed (point-level tombstone) / with a new key of an existing type, edge point on a shared node and on the second placement of a mirrored node on a shared node at either side, node creation at either side (below the device and below a leaf), node point on a node that is placed twice inside the device tree, delete / undelete at either side, sync disabled = clean outage / re-enabled, sync settings re-saved while the link is up, link lost abruptly / restored, upstream process restarted, upstream stopped with its clients reconnecting before its store answers / upstream store back, a sync period passes), %d scheduling deviations; then the link is brought up, 5 periods pass, and the device subtrees (deleted nodes included, every point with all fields) must be identical and hold the newest accepted write per identity", depth, dev)},
+			Rule: fmt.Sprintf("two real stores linked by the real SyncClient (period 1 s) after an initial catch-up; all histories of %d operations over 33 (point with an existing identity, plain, 300 us after the newest one, or marked removed (point-level tombstone) / with a new key of an existing type, edge point on a shared node and on the second placement of a mirrored node on a shared node at either side, node creation at either side (below the device and below a leaf), node point on a node that is placed twice inside the device tree, delete / undelete at either side, sync disabled = clean outage / re-enabled, sync settings re-saved while the link is up, link lost abruptly / restored, upstream process restarted, upstream stopped with its clients reconnecting before its store answers / upstream store back, a sync period passes), %d scheduling deviations; then the link is brought up, 5 periods pass, and the device subtrees (deleted nodes included, every point with all fields) must be identical and hold the newest accepted write per identity", depth, dev)},
 			c02Body(t, depth, dev))
 		r.Assume("outages: the sync node disabled / re-enabled (clean disconnect) and abrupt loss of the sync client's upstream connection (queued deliveries lost, its publishes buffered and flushed on recovery, Disconnected/Reconnected handlers); an upstream restart = its clients lose the link, the store stops and reopens the same file, the clients reconnect")
 		r.Assume("root edge points of the device node are not compared (the code excludes them from synchronisation)")
